@@ -97,7 +97,7 @@ Yield(n) == IF IsBin(n) THEN Yield(LeftOf(n)) \o <<OpOf(n)>> \o Yield(RightOf(n)
 RECURSIVE ChainYield(_, _)
 ChainYield(ch, i) == IF i > Len(ch) THEN <<>> ELSE <<ch[i], "x">> \o ChainYield(ch, i + 1)
 PrecedenceHolds ==
-    (done /\ flav \notin {"neg", "negsp"} /\ (\A i \in 1..Len(chain) : chain[i] \in BinOps)) =>
+    (done /\ flav \notin {"neg", "negsp", "wildn"} /\ (\A i \in 1..Len(chain) : chain[i] \in BinOps)) =>
         LET R == RawParse(Tight(flav, chain))
         IN  ~R.err => (WellShaped(R.node) /\ Yield(R.node) = <<"x">> \o ChainYield(chain, 1))
 =============================================================================
